@@ -403,7 +403,7 @@ func (e *Exporter) exportJSON(chunks []*Chunk, w io.Writer) error {
 // exportCSV exports chunks as CSV or TSV
 func (e *Exporter) exportCSV(chunks []*Chunk, w io.Writer) error {
 	csvWriter := csv.NewWriter(w)
-	csvWriter.Comma = e.config.CSVDelimiter
+	csvWriter.Comma = e.delimiter()
 
 	// Collect all possible columns from all chunks
 	columns := e.collectCSVColumns(chunks)
@@ -426,6 +426,18 @@ func (e *Exporter) exportCSV(chunks []*Chunk, w io.Writer) error {
 
 	csvWriter.Flush()
 	return csvWriter.Error()
+}
+
+// delimiter returns the field delimiter for the configured format: TSV is
+// always tab-separated; CSV uses CSVDelimiter, which defaults to a comma.
+func (e *Exporter) delimiter() rune {
+	if e.config.Format == ExportFormatTSV {
+		return '\t'
+	}
+	if e.config.CSVDelimiter == 0 {
+		return ','
+	}
+	return e.config.CSVDelimiter
 }
 
 // collectCSVColumns determines all columns for CSV export
